@@ -72,11 +72,14 @@ Roots == {Obj("Root", [n \in {"a"} |-> v]) : v \in Pool}
          \cup {Obj("Root", NoMap)}
 
 \* graphs for the skip-list properties: names reused at several depths
-SkipLeaf == {PyInt, PyStr, Arr1d, TenPlain, PyBool, List(<<PyInt, PyStr>>)}
+\* (skipping is by ATTRIBUTE name: dictionary keys that happen to equal a skipped name are data and stay)
+KeyedLikeNames == Dict([k \in {"a", "c"} |-> IF k = "a" THEN PyInt ELSE PyStr])
+SkipLeaf == {PyInt, PyStr, Arr1d, TenPlain, PyBool, List(<<PyInt, PyStr>>), KeyedLikeNames,
+             List(<<Dict([k \in {"b"} |-> PyInt]), PyStr>>)}
 Lvl3 == {Obj("Inner", m) : m \in Maps({PyInt, Arr1d}, {"a", "c"})}
 Lvl2 == {Obj("Inner", m) : m \in [{"a", "b"} -> {PyStr}] \cup {[n \in {"a", "c"} |-> IF n = "a" THEN PyInt ELSE o] : o \in Lvl3}}
 SkipRoots == {Obj("Root", [n \in {"a", "b", "c"} |-> IF n = "a" THEN x ELSE IF n = "b" THEN y ELSE o])
-                 : x \in SkipLeaf, y \in {PyStr, TenPlain, Arr1d}, o \in Lvl2}
+                 : x \in SkipLeaf, y \in {PyStr, TenPlain, Arr1d, Dict([k \in {"b", "zz"} |-> PyInt])}, o \in Lvl2}
 SkipNames == SUBSET {"a", "b", "c", "zz"}
 SkipTypes == {{}, {"int"}, {"str"}, {"ndarray"}, {"Tensor"}, {"Obj"}, {"list"}, {"int", "Tensor"}, {"bool"}}
 
